@@ -1065,7 +1065,7 @@ def c09_g7(ctx):
         raise Anchor("C09-G7", "gap pushes ending at a held range's start")
 
 
-@rule("C09", "C09-G8", 1, "the list of held ranges of a receive transaction is only ever changed by recording a written segment (Segments::merge in store_file_data): it is never reset or replaced while the staged bytes exist", also=("C01", "C04"))
+@rule("C09", "C09-G8", 1, "the list of held ranges of a receive transaction is only ever changed by recording a written segment (Segments::merge in store_file_data): it is never reset or replaced while the staged bytes exist", also=("C01", "C04", "C20"))
 def c09_g8(ctx):
     fns = impl_and_closures(ctx, RECV)
     n = 0
